@@ -23,10 +23,12 @@ doc   flowing text: one unit, or one per detected heading section.  The extracto
 from __future__ import annotations
 
 import datetime as _dt
+import hashlib
 import random
 import struct
 
 from . import cfb
+from . import images as IMG
 from .expect import Expect
 from .tokens import Tokens
 
@@ -34,6 +36,9 @@ PPT_FEATURES = {
     "slide-without-text": "a slide without any text between two slides with text (twin: the slide has a title)",
     "textless-slides-with-notes": "no slide has placeholder text but the notes pages have text (twin: every slide has a title)",
     "textbox-in-slide-drawing": "text box whose text lives in the Slide container's drawing (ClientTextbox) (twin: same text as an 'other' block of the SlideListWithText)",
+    "text-in-slide-drawings": "LibreOffice layout: SlideListWithText holds only SlidePersistAtoms, every text lives in its Slide container's drawing (twin: PowerPoint layout, text in the SlideListWithText)",
+    "picture-per-slide": "1..3 pictures, the i-th on slide i (BStore + Pictures stream + picture shapes) (twin: no pictures)",
+    "two-pictures-on-one-slide": "two pictures on the same slide of a deck with >= 2 slides (twin: no pictures)",
     "multi-paragraph-text": "a body text atom holding several paragraphs separated by \\r, as PowerPoint writes a bullet list (twin: one text atom per paragraph)",
     "soft-line-break": "a vertical tab (\\x0b, soft line break) between two words of a body text (twin: a space)",
     "placeholder-like-line": "a body paragraph starting with the words 'Click to edit' (twin: 'Now click to edit')",
@@ -111,17 +116,46 @@ def _text_atoms(rng: random.Random, ttype: int, text: str) -> bytes:
     return out
 
 
-def _shape(spid: int, inner: bytes, stype: int = 1) -> bytes:
+def _shape(spid: int, inner: bytes, stype: int = 1, pib: int | None = None) -> bytes:
     fsp = _rec(2, stype, 0xF00A, struct.pack("<II", spid, 0x0A00))
-    fopt = _rec(3, 1, 0xF00B, struct.pack("<HI", 0x007F, 0x00040004))
+    props = [(0x007F, 0x00040004)] + ([(0x4104, pib)] if pib else [])       # pib: 1-based index into the BStore
+    fopt = _rec(3, len(props), 0xF00B, b"".join(struct.pack("<HI", k, v) for k, v in props))
     anchor = _rec(0, 0, 0xF010, struct.pack("<HHHH", 100, 100, 2000, 1000))
     return _cont(0xF004, [fsp, fopt, anchor, inner])
 
 
 def _drawing(dg_id: int, shapes: list[bytes]) -> bytes:
-    fdg = _rec(0, dg_id, 0xF008, struct.pack("<II", len(shapes) + 1, dg_id * 1024 + len(shapes)))
+    fdg = _rec(0, dg_id, 0xF008, struct.pack("<II", len(shapes) + 2, dg_id * 1024 + len(shapes) + 1))
     group = _cont(0xF004, [_rec(1, 0, 0xF009, b"\0" * 16), _rec(2, 0, 0xF00A, struct.pack("<II", dg_id * 1024, 0x0005))])
-    return _cont(RT_PPDRAWING, [_cont(0xF002, [fdg, _cont(0xF003, [group] + shapes)])])
+    background = _cont(0xF004, [_rec(2, 1, 0xF00A, struct.pack("<II", dg_id * 1024 + 1, 0x0C00)),
+                                _rec(3, 1, 0xF00B, struct.pack("<HI", 0x0181, 0x08000004))])
+    return _cont(RT_PPDRAWING, [_cont(0xF002, [fdg, _cont(0xF003, [group] + shapes), background])])
+
+
+def _blip(codec: str, w: int, h: int, seed: int) -> dict:
+    """OfficeArtBlip record (PNG / JPEG / DIB) for an image file; ``sha`` is that of the file a reader should return."""
+    data = IMG.make(codec, w, h, seed)
+    uid = hashlib.md5(data).digest()
+    if codec == "png":
+        rec, bt = _rec(0, 0x6E0, 0xF01E, uid + b"\xff" + data), 6
+    elif codec == "jpeg":
+        rec, bt = _rec(0, 0x46A, 0xF01D, uid + b"\xff" + data), 5
+    else:       # a BMP file is stored as its DIB (the file without the 14-byte BITMAPFILEHEADER)
+        rec, bt = _rec(0, 0x7A8, 0xF01F, uid + b"\xff" + data[14:]), 7
+    return {"rec": rec, "bt": bt, "uid": uid, "data": data, "sha": hashlib.sha1(data).hexdigest(), "ctype": IMG.CODECS[codec][1], "w": w, "h": h}
+
+
+def _fbse(b: dict, fo_delay: int, inline: bool = False) -> bytes:
+    body = struct.pack("<BB16sHIIIBBBB", b["bt"], b["bt"], b["uid"], 0xFF, len(b["rec"]), 1, fo_delay, 0, 0, 0, 0)
+    return _rec(2, b["bt"], 0xF007, body + (b["rec"] if inline else b""))
+
+
+def _dgg(n_drawings: int, bses: list[bytes]) -> bytes:
+    """OfficeArtDggContainer: FDGG block (+ one IDCL per drawing) and the BStore."""
+    fdgg = _rec(0, 0, 0xF006, struct.pack("<IIII", (n_drawings + 1) * 1024, n_drawings + 1, n_drawings * 3, n_drawings)
+                + b"".join(struct.pack("<II", i + 1, 3) for i in range(n_drawings)))
+    kids = [fdgg] + ([_cont(0xF001, bses, inst=len(bses))] if bses else [])
+    return _cont(0xF000, kids)
 
 
 def _placeholder_shape(spid: int, ph_type: int, textbox: bytes) -> bytes:
@@ -136,6 +170,8 @@ def build_ppt(seed: int, feature: str | None = None, twin: bool = False):
     n_slides = rng.randint(1, 6)
     if feature == "slide-without-text":
         n_slides = max(3, n_slides)
+    if feature == "two-pictures-on-one-slide":
+        n_slides = max(2, n_slides)
     fslide = rng.randrange(1, n_slides - 1) if feature == "slide-without-text" else rng.randrange(n_slides)
     seps = [" ", " ", " ", "\t", " é ", " – ", " 😀 "]
 
@@ -192,10 +228,24 @@ def build_ppt(seed: int, feature: str | None = None, twin: bool = False):
             else:
                 boxes.append(txt)
         notes = None
-        if rng.random() < 0.4 or feature == "textless-slides-with-notes":
+        if (rng.random() < 0.4 and feature != "text-in-slide-drawings") or feature == "textless-slides-with-notes":
             notes = " ".join(exp.out(tk.new("n")) for _ in range(rng.randint(1, 4)))
-        slides.append({"blocks": blocks, "boxes": boxes, "notes": notes})
+        slides.append({"blocks": blocks, "boxes": boxes, "notes": notes, "pics": []})
     exp.n_units = n_slides
+    exp.images_claimed = True
+    in_drawings = risky == "text-in-slide-drawings"      # LibreOffice layout: SlideListWithText holds only the persist atoms
+    prng = random.Random(f"ppt:{seed}:pictures")
+    placement = []
+    if risky == "picture-per-slide":
+        placement = list(range(prng.randint(1, min(3, n_slides))))
+    elif risky == "two-pictures-on-one-slide":
+        placement = [fslide, fslide]
+    blips = []
+    for i, s in enumerate(placement):
+        b = _blip(prng.choice(["png", "jpeg", "bmp"]), prng.randint(2, 40), prng.randint(2, 40), prng.randrange(1 << 16))
+        blips.append(b)
+        slides[s]["pics"].append(len(blips))
+        exp.images.append({"sha": b["sha"], "ctype": b["ctype"], "w": b["w"], "h": b["h"], "unit": s + 1})
 
     # ---- persist objects: 1 Document, 2 MainMaster, 3.. slides, then notes
     master_pid = 2
@@ -212,9 +262,15 @@ def build_ppt(seed: int, feature: str | None = None, twin: bool = False):
     for s in range(n_slides):
         slwt_slides.append(persist_atom(slide_pid[s], slide_id[s], len(slides[s]["blocks"])))
         for ttype, text in slides[s]["blocks"]:
-            slwt_slides.append(_text_atoms(rng, ttype, text))
+            if not in_drawings:
+                slwt_slides.append(_text_atoms(rng, ttype, text))
+    pictures, bses = b"", []
+    for b in blips:
+        bses.append(_fbse(b, len(pictures)))
+        pictures += b["rec"]
     doc_children = [
         _rec(1, 0, RT_DOCUMENT_ATOM, struct.pack("<iiiiiiIIHHBBBB", 5760, 4320, 4320, 5760, 1, 2, 0, 0, 1, 0, 0, 0, 0, 1)),
+        _cont(0x040B, [_dgg(1 + n_slides + sum(1 for x in slides if x["notes"] is not None), bses)]),       # PPDrawingGroup
         _cont(RT_SLWT, [persist_atom(master_pid, 0x80000000, 0)], inst=1),
         _cont(RT_SLWT, slwt_slides, inst=0),
     ]
@@ -226,6 +282,7 @@ def build_ppt(seed: int, feature: str | None = None, twin: bool = False):
     def slide_atom(master_ref, notes_ref):
         return _rec(2, 0, RT_SLIDE_ATOM, struct.pack("<i8BIIHH", 1, 13, 14, 0, 0, 0, 0, 0, 0, master_ref, notes_ref, 0x7, 0))
 
+    colour_scheme = _rec(0, 1, 0x07F0, struct.pack("<8I", 0xFFFFFF, 0, 0x808080, 0, 0x99CC00, 0xCC3333, 0xFFCCCC, 0xB2B2B2))
     master = _cont(RT_MAIN_MASTER, [
         slide_atom(0, 0),
         _drawing(1, [
@@ -237,10 +294,13 @@ def build_ppt(seed: int, feature: str | None = None, twin: bool = False):
         shapes = []
         for i, (ttype, _) in enumerate(slides[s]["blocks"]):
             ph = {TX_TITLE: 13, TX_CENTER_TITLE: 15, TX_CENTER_BODY: 16, TX_OTHER: 0}.get(ttype, 14)
-            shapes.append(_placeholder_shape((s + 2) * 1024 + 2 + i, ph, _rec(0, 0, RT_OUTLINE_REF, struct.pack("<i", i))))
+            ref = _text_atoms(rng, ttype, slides[s]["blocks"][i][1]) if in_drawings else _rec(0, 0, RT_OUTLINE_REF, struct.pack("<i", i))
+            shapes.append(_placeholder_shape((s + 2) * 1024 + 2 + i, ph, ref))
         for i, txt in enumerate(slides[s]["boxes"]):
             shapes.append(_shape((s + 2) * 1024 + 20 + i, _cont(0xF00D, [_text_atoms(rng, TX_OTHER, txt)]), stype=202))
-        slide_recs.append(_cont(RT_SLIDE, [slide_atom(0x80000000, notes_id.get(s, 0)), _drawing(s + 2, shapes)]))
+        for i, pib in enumerate(slides[s]["pics"]):
+            shapes.append(_shape((s + 2) * 1024 + 30 + i, b"", stype=75, pib=pib))
+        slide_recs.append(_cont(RT_SLIDE, [slide_atom(0x80000000, notes_id.get(s, 0)), _drawing(s + 2, shapes), colour_scheme]))
     notes_recs = []
     for s in notes_of:
         box = _shape((s + 40) * 1024 + 3, _cont(0xF011, [_rec(0, 0, RT_PLACEHOLDER, struct.pack("<iBBH", 1, 12, 0, 0))])
@@ -269,6 +329,8 @@ def build_ppt(seed: int, feature: str | None = None, twin: bool = False):
         "\x05SummaryInformation": _summary(tk, exp, random.Random(f"meta:{seed}"), feature, twin, ("title", "author", "subject", "keywords", "description")),
         "\x05DocumentSummaryInformation": docsum,
     }
+    if pictures:
+        streams["Pictures"] = pictures
     return cfb.make_cfb(streams, root_clsid=bytes.fromhex("108d81649b4fcf1186ea00aa00b929e8")), exp
 
 
@@ -751,6 +813,22 @@ BUILDERS = {
 
 # ========================================================================================= self test
 
+def _blip_shas(data: bytes, start: int = 0, end: int | None = None) -> list[str]:
+    """SHA-1 of the image file held by every OfficeArtBlip record of a flat record sequence (self test)."""
+    out, off = [], start
+    end = len(data) if end is None else end
+    while off + 8 <= end:
+        vi, rt, ln = struct.unpack_from("<HHI", data, off)
+        if 0xF01A <= rt <= 0xF029:
+            img = data[off + 8 + 17:off + 8 + ln]
+            if rt == 0xF01F:
+                img = b"BM" + struct.pack("<IHHI", 14 + len(img), 0, 0, 54) + img
+            out.append(hashlib.sha1(img).hexdigest())
+        off += 8 + ln
+    return out
+
+
+
 def self_test(n: int = 40) -> dict:
     """Validate the writers without the extractors under test: olefile lists/reads every stream, xlrd returns the
     typed grid, the PPT record tree parses strictly and holds the recorded tokens per slide, the DOC text is
@@ -785,7 +863,8 @@ def self_test(n: int = 40) -> dict:
                     w = walk_ppt(got["PowerPoint Document"])
                     assert len(w["per_slide"]) == exp.n_units == w["slides"], (seed, feature)
                     in_slwt = [[t for _, txt in blocks for t in T.find(txt)] for blocks in w["per_slide"]]
-                    assert bool(w["boxes"]) == (feature == "textbox-in-slide-drawing" and not twin)
+                    assert bool(w["boxes"]) == (feature in ("textbox-in-slide-drawing", "text-in-slide-drawings") and not twin)
+                    assert _blip_shas(got.get("Pictures", b"")) == [i["sha"] for i in exp.images], (seed, feature)
                     for s in range(exp.n_units):
                         boxed = [t for txt in w["boxes"].get(s, []) for t in T.find(txt)]
                         assert in_slwt[s] + boxed == by_unit.get(s, []), (seed, feature, twin, s)
